@@ -287,6 +287,8 @@ class MTVRPEnv(RL4COEnvBase):
 
     @staticmethod
     def check_solution_validity(td: TensorDict, actions: torch.Tensor):
+        # the last route implicitly returns to the depot: make the return explicit so that it is checked as well
+        actions = torch.cat((actions, torch.zeros_like(actions[:, :1])), dim=1)
         batch_size, n_loc = td["demand_linehaul"].size()
         locs = td["locs"]
         n_loc -= 1  # exclude depot
